@@ -233,7 +233,10 @@ def strToNone : PyVal → PyVal
 mutual
 /-- `util.make_serializable` (as fixed: arrays carry dtype and shape; NumPy arrays accepted;
     `numpy.bool_` → `bool`; lists and tuples are rebuilt element-wise as NEW lists; slice members go
-    through the same conversion).  Every other object falls through the `else` branch unchanged. -/
+    through the same conversion).  Every other object falls through the `else` branch unchanged.
+    A set has no order: the code lists its elements sorted when they can be ordered (repair of finding
+    H3-C1; set-iteration order before), the model in the order of its input; the harness compares set
+    records as unordered. -/
 def makeSerializable : PyVal → PyVal
   | .arr dt sh d => .dict [("type", .str "jax.numpy"), ("data", nest sh d),
                            ("dtype", .str dt.name), ("shape", .list (sh.map fun n => .int (Int.ofNat n)))]
@@ -301,9 +304,10 @@ def mkSet (ys : List PyVal) : PyM PyVal :=
   if PyVal.hashableL ys then .ok (.set (dedupPy ys)) else .error (.typeError "unhashable")
 
 mutual
-/-- `util.deserialize`.  A dict must have a `"type"` key (`KeyError` otherwise); an unknown type
-    falls off the end of the function and yields `None`, as in the code; a list is rebuilt
-    element-wise (a tuple is not a list and falls through unchanged). -/
+/-- `util.deserialize`.  A dict must have a `"type"` key (`KeyError` otherwise); an unknown type is
+    refused with `ValueError` (it fell off the end of the function and yielded `None` before the
+    repair of finding A7); a list is rebuilt element-wise (a tuple is not a list and falls through
+    unchanged). -/
 def deserialize : PyVal → PyM PyVal
   | .dict kvs =>
     match alookup "type" kvs with
@@ -313,8 +317,8 @@ def deserialize : PyVal → PyM PyVal
       else if t = "slice" then deserSliceData kvs
       else if t = "dict" then deserDictData kvs
       else if t = "set" then deserSetData kvs
-      else .ok .none
-    | some _ => .ok .none
+      else .error (.valueError "unknown-type")
+    | some _ => .error (.valueError "unknown-type")
   | .list xs => (deserializeL xs).map .list
   | v => .ok (strToNone v)
 /-- `slice(*[deserialize(v) for v in x["data"]])` -/
@@ -642,12 +646,24 @@ inductive CovClass where
   | pair (k : PairKind)
   deriving DecidableEq, Repr
 
+/-- Names bound in the module `base_cov` that are not kernel classes that can be instantiated (imports,
+    helpers, the abstract base class): found by the `globals()` lookup and refused. -/
+def baseCovNonKernelGlobals : List String :=
+  ["Covariance", "ABC", "abstractmethod", "sys", "logging", "json", "datetime", "import_module", "isabstract",
+   "vmap", "jacfwd", "expand_dims", "reshape", "where", "make_serializable", "deserialize",
+   "select_active_dims", "expand_to_inactive", "MELLON_NAME", "logger", "_state_field", "_deserialize_field"]
+
 /-- Class lookup by name: `globals()` of `base_cov` first (`Add`, `Mul`, `Pow`, whatever the module
-    name says), otherwise `getattr(import_module(module_name), classname)`. -/
+    name says), otherwise `getattr(import_module(module_name), classname)`.  What is found must be a
+    concrete subclass of `Covariance`; a name that is not found, is not a class, is not a kernel class or
+    is abstract (`Covariance`) is refused with `ValueError`.  (`CovariancePair` itself can be
+    instantiated; it is outside the kernel syntax of the model.) -/
 def covClass (cls module : String) : PyM CovClass :=
   if cls = "Add" then .ok (.pair .add)
   else if cls = "Mul" then .ok (.pair .mul)
   else if cls = "Pow" then .ok (.pair .pow)
+  else if cls = "CovariancePair" then .error (.unmodelled "class-lookup")
+  else if baseCovNonKernelGlobals.contains cls then .error (.valueError "not-a-kernel-class")
   else if module = "mellon.cov" then
     if cls = "Matern32" then .ok (.leaf .matern32)
     else if cls = "Matern52" then .ok (.leaf .matern52)
@@ -655,7 +671,7 @@ def covClass (cls module : String) : PyM CovClass :=
     else if cls = "Exponential" then .ok (.leaf .exponential)
     else if cls = "RatQuad" then .ok (.leaf .ratquad)
     else if cls = "Linear" then .ok (.leaf .linear)
-    else .error (.internal "AttributeError")
+    else .error (.valueError "class-lookup")
   else .error (.unmodelled "class-lookup")
 
 def isKernelState : PyVal → Bool
@@ -664,19 +680,36 @@ def isKernelState : PyVal → Bool
     | _ => false
   | _ => false
 
+/-- `_state_field(state, key, kind)`: a required field that is missing or of the wrong type is
+    refused with `ValueError`. -/
+def strField (key : String) (kvs : List (String × PyVal)) : PyM String :=
+  match alookup key kvs with
+  | Option.none => .error (.valueError "missing-field")
+  | some (.str s) => .ok s
+  | some _ => .error (.valueError "field-type")
+
 def stateClass (kvs : List (String × PyVal)) : PyM CovClass :=
   match alookup "metadata" kvs with
   | some (.dict md) =>
-    match alookup "classname" md, alookup "module_name" md with
-    | some (.str c), some (.str mo) => covClass c mo
-    | Option.none, _ => .error (.internal "KeyError")
-    | _, Option.none => .error (.internal "KeyError")
-    | _, _ => .error (.unmodelled "metadata")
-  | Option.none => .error (.internal "KeyError")
-  | some _ => .error (.unmodelled "metadata")
+    match strField "classname" md with
+    | .error e => .error e
+    | .ok c =>
+      match strField "module_name" md with
+      | .error e => .error e
+      | .ok mo => covClass c mo
+  | Option.none => .error (.valueError "missing-field")
+  | some _ => .error (.valueError "field-type")
+
+/-- `_deserialize_field`: whatever `deserialize` raises on a stored value (`KeyError` for a record
+    without `"type"` / `"data"`, `TypeError`, `AttributeError`, …) is turned into `ValueError`.
+    (`unmodelled` is not an outcome of the code but the model's mark for inputs it does not cover.) -/
+def refuseMalformed {α : Type} : PyM α → PyM α
+  | .ok a => .ok a
+  | .error (.unmodelled w) => .error (.unmodelled w)
+  | .error _ => .error (.valueError "malformed-value")
 
 def deserAd (v : Option PyVal) : PyM ActiveDims :=
-  match deserialize (v.getD .none) with
+  match refuseMalformed (deserialize (v.getD .none)) with
   | .error e => .error e
   | .ok w => match pyToAd w with
     | some ad => .ok ad
@@ -685,9 +718,9 @@ def deserAd (v : Option PyVal) : PyM ActiveDims :=
 /-- `Covariance.__setstate__` of a leaf class: every item of `data` becomes an attribute. -/
 def leafFromState (k : LeafKind) (kvs : List (String × PyVal)) : PyM (Cov PyVal) :=
   match alookup "data" kvs with
-  | Option.none => .error (.internal "KeyError")
+  | Option.none => .error (.valueError "missing-field")
   | some (.dict data) =>
-    match deserializeK data with
+    match refuseMalformed (deserializeK data) with
     | .error e => .error e
     | .ok attrs =>
       let need := if k = .ratquad then 3 else 2
@@ -707,7 +740,7 @@ def leafFromState (k : LeafKind) (kvs : List (String × PyVal)) : PyM (Cov PyVal
             | some a => .ok (.ratquad a ls ad)
             | Option.none => .error (.unmodelled "kernel-attributes")
       | _, _ => .error (.unmodelled "kernel-attributes")
-  | some _ => .error (.internal "AttributeError")
+  | some _ => .error (.valueError "field-type")
 
 def buildPair (k : PairKind) (l : Cov PyVal) (r : Sum (Cov PyVal) PyVal) (ad : ActiveDims) : PyM (Cov PyVal) :=
   match k, r with
@@ -719,7 +752,10 @@ def buildPair (k : PairKind) (l : Cov PyVal) (r : Sum (Cov PyVal) PyVal) (ad : A
   | .pow, .inl _ => .error (.unmodelled "pow-of-kernel")
 
 mutual
-/-- `Covariance.from_dict`: not a dict, or `type` is not `"mellon.Covariance"` → `ValueError`. -/
+/-- `Covariance.from_dict`: not a dict, or `type` is not `"mellon.Covariance"` → `ValueError`; so is a
+    state with the marker in which a required field (`metadata`, `classname`, `module_name`, `data`,
+    `left_data`, `right_data`) is missing or of the wrong type, whose class is not a concrete kernel
+    class, or in which a stored value cannot be deserialised. -/
 def covFromDict : PyVal → PyM (Cov PyVal)
   | .dict kvs =>
     if !(isKernelState (.dict kvs)) then .error (.valueError "not-a-kernel") else
@@ -738,14 +774,15 @@ def covFromDict : PyVal → PyM (Cov PyVal)
           | .ok ad => buildPair k l r ad
   | _ => .error (.valueError "not-a-kernel")
 def covFromKey (key : String) : List (String × PyVal) → PyM (Cov PyVal)
-  | [] => .error (.internal "KeyError")
+  | [] => .error (.valueError "missing-field")
   | (k, v) :: rest => if k = key then covFromDict v else covFromKey key rest
 /-- `right_data`: a nested kernel state, or a scalar through `deserialize`. -/
 def covRightFromKey : List (String × PyVal) → PyM (Sum (Cov PyVal) PyVal)
-  | [] => .error (.internal "KeyError")
+  | [] => .error (.valueError "missing-field")
   | (k, v) :: rest =>
     if k = "right_data" then
-      if isKernelState v then (covFromDict v).map Sum.inl else (deserialize v).map Sum.inr
+      if isKernelState v then (covFromDict v).map Sum.inl
+      else (refuseMalformed (deserialize v)).map Sum.inr
     else covRightFromKey rest
 end
 
